@@ -881,6 +881,11 @@ def stream_wrap(chk, thorough, corpus):
         for s in ("</scrİpt>", "</ſcript>", "</Kcript>", "</sKript>", "</ſtyle>", "</SCRİPT>", "</ｓcript>",
                   "</scrıpt>", "</stŸle>"):
             cases.append((js, s, "unicode"))
+        # lower() lengthens the text (U+0130 -> 2 code points): an end tag at the very end, after 1..8 such characters
+        for n in range(1, 9):
+            for post in ("", ">", " >"):
+                cases.append((js, "\u0130" * n + "</" + word + post, "unicode-lengthening"))
+                cases.append((js, "\u0130" * n + "</" + word.upper() + post, "unicode-lengthening"))
     alpha = ["<", "/", "s", "S", "c", "r", "i", "p", "t", "y", "l", "e", ">", " ", "x", "İ", "C", "R", "I", "P", "T", "Y", "L", "E"]
     for _ in range(20000 if thorough else 3000):
         n = rng.randint(0, 14)
